@@ -132,6 +132,21 @@ func genC02(c *Ctx) {
 		for i := range msgs {
 			msgs[i] = c.bytes(1 + c.intn(40))
 		}
+		if it%3 == 1 && nm >= 2 {
+			// the messages as windows of ONE buffer: nested prefixes (same first byte, other lengths), a common suffix
+			// window, adjacent windows - a message is its bytes, wherever the caller keeps them
+			buf := c.bytes(40 + 7*nm)
+			for i := range msgs {
+				switch i % 3 {
+				case 0:
+					msgs[i] = buf[:10+5*i]
+				case 1:
+					msgs[i] = buf[:11+5*i : 11+5*i]
+				case 2:
+					msgs[i] = buf[3 : 9+5*i]
+				}
+			}
+		}
 		es := make([]manyEntry, n)
 		for i := range es {
 			k := ks[c.intn(nk)]
